@@ -348,11 +348,19 @@ func ScaledFamilies(big bool) []Scaled {
 	for _, n := range []int{15, 16, 17, 18} {
 		add(fmt.Sprintf("nest-%d", n), rep("def b { ", n)+"x=1"+rep(" }", n))
 	}
-	// jump distance: `false and (<long expr>)`: body of about D bytes of code
-	// each "+2" emits CONST idx ADD = 3 bytes (2 is const idx < 241).
-	for _, d := range []int{21843, 21844, 21845, 21846} { // 3*d + few ~ 65535 boundary
-		add(fmt.Sprintf("jump-%d", d), "print false and 2"+rep("+2", d))
-		add(fmt.Sprintf("jumpor-%d", d), "print true or 2"+rep("+2", d))
+	// jump distance: the right operand of and/or is `1+1+...` (ONE ADD = 2 bytes per term, no new
+	// constants), started with `1` (1 byte) or `2` (CONST = 2 bytes) to reach even and odd distances:
+	// distance = 1 (POP) + first + 2*terms. Targets around the sign bit of the 16-bit operand and its maximum.
+	for _, T := range []int{254, 255, 256, 257, 32766, 32767, 32768, 32769, 49152, 65533, 65534, 65535, 65536, 65537} {
+		first, terms := "1", (T-2)/2
+		if T%2 == 1 {
+			first, terms = "2", (T-3)/2
+		}
+		body := first + rep("+1", terms)
+		add(fmt.Sprintf("jump-and-taken-%d", T), "print false and "+body)
+		add(fmt.Sprintf("jump-and-fallthrough-%d", T), "print true and "+body)
+		add(fmt.Sprintf("jump-or-taken-%d", T), "print 7 or "+body)
+		add(fmt.Sprintf("jump-or-fallthrough-%d", T), "def b { x = nil or "+body+" }")
 	}
 	// repeat counts
 	add("repeat-neg", `print "ab" * -1`)
